@@ -30,7 +30,7 @@ def plan(tier, seed):
     return {
         "level": "fault_enumeration",
         "rule": "EDN/JSON: random nested values of each codec's domain (scalars with boundary numbers, strings exhaustively to length 3 over a 15-character escape alphabet, keywords, symbols, lists, vectors, "
-        "maps, sets, uuid, inst) written and read back; bencode: streams of 1-5 messages (ints incl. negative/zero, byte strings incl. framing look-alikes such as i1e / digits / colons / e, empty "
+        "maps, sets, uuid, inst) written and read back; bencode: streams of 1-5 messages (ints incl. negative/zero, byte strings incl. framing look-alikes such as i1e / digits / colons / e, text values - strings with 1-4 byte UTF-8 characters, keywords, symbols - compared on their wire form, non-ASCII and keyword/symbol dict keys, empty "
         "collections, nesting to depth 6) with EVERY split point of every stream (exhaustive per stream) and the accumulate-and-continue loop. distinct = distinct written text / (stream, split); "
         "non-trivial = values with at least one collection or escape-relevant character, splits strictly inside the stream.",
         "shards": shards,
